@@ -233,3 +233,20 @@ Definition proj_C10 : projection :=
      pj_del := del_none |}.
 (** C12: everything *)
 Definition proj_C12 : projection := keep_all.
+
+(** diagnosis: for the first call that differs, (call index, position of the first differing event,
+    the model's and the implementation's event there, deliveries equal?, the model's delivery) *)
+Fixpoint seq_diff (ms os : list (delivery * list ev)) (j : nat)
+    : option (nat * option nat * option ev * option ev * bool * delivery) :=
+  match ms, os with
+  | m :: mr, o :: or_ =>
+      let n := first_div (snd m) (snd o) 0 in
+      let de := delivery_eqb (fst m) (fst o) in
+      match n with
+      | None => if de then seq_diff mr or_ (S j) else Some (j, None, None, None, false, fst m)
+      | Some k => Some (j, Some k, nth_error (snd m) k, nth_error (snd o) k, de, fst m)
+      end
+  | [], [] => None
+  | _, _ => Some (j, None, None, None, false, DUnexpected)
+  end.
+Definition rcase_diff (k : rcase) := seq_diff (run_seq (rc_calls k) (rc_t0 k) []) (rc_obs k) 0.
